@@ -1131,6 +1131,18 @@ def propagate_attribute_aliases(modules):
     binding dropped, so that rules about `self.queue.append(..)` see the same calls however the code abbreviates them.  (An alias of an attribute that the
     function itself re-assigns is left alone: it keeps the *old* object, which is not the same thing.)"""
     log = []
+    # attribute names that some function other than a constructor (re)binds: an alias of such an attribute taken before a call is NOT the attribute after
+    # the call (whoever runs in between may have replaced the object) - these are never written out
+    rebound = set()
+    for m in modules.values():
+        for fn in [n for n in ast.walk(m.tree) if isinstance(n, ast.FunctionDef)]:
+            if fn.name == '__init__':
+                continue
+            for n in ast.walk(fn):
+                if isinstance(n, ast.Attribute) and isinstance(n.ctx, (ast.Store, ast.Del)):
+                    rebound.add(n.attr)
+                elif isinstance(n, ast.Call) and isinstance(n.func, ast.Name) and n.func.id in ('setattr', 'delattr') and len(n.args) >= 2:
+                    rebound.add(n.args[1].value if isinstance(n.args[1], ast.Constant) else '*')
     for m in modules.values():
         for fn in [n for n in ast.walk(m.tree) if isinstance(n, ast.FunctionDef)]:
             params = {a.arg for a in fn.args.posonlyargs + fn.args.args + fn.args.kwonlyargs}
@@ -1150,31 +1162,53 @@ def propagate_attribute_aliases(modules):
                     c = _chain(n)
                     if c:
                         written.add(c)
+            # every statement list of the function (its body and the blocks nested in it, not those of nested functions)
+            blocks = []
+
+            def collect(stmts):
+                blocks.append(stmts)
+                for st in stmts:
+                    if isinstance(st, (ast.FunctionDef, ast.AsyncFunctionDef, ast.ClassDef)):
+                        continue
+                    for fld in ('body', 'orelse', 'finalbody'):
+                        sub = getattr(st, fld, None)
+                        if isinstance(sub, list) and sub and all(isinstance(x, ast.stmt) for x in sub):
+                            collect(sub)
+                    if isinstance(st, ast.Try):
+                        for hd in st.handlers:
+                            collect(hd.body)
+            collect(fn.body)
+            all_names = [n for n in ast.walk(fn) if isinstance(n, ast.Name)]
             cands = {}
-            for i, st in enumerate(fn.body):
-                if not isinstance(st, ast.Assign) or len(st.targets) != 1:
-                    continue
-                t, v = st.targets[0], st.value
-                pairs = []
-                if isinstance(t, ast.Name):
-                    pairs = [(t, v)]
-                elif isinstance(t, ast.Tuple) and isinstance(v, ast.Tuple) and len(t.elts) == len(v.elts) and all(isinstance(x, ast.Name) for x in t.elts):
-                    pairs = list(zip(t.elts, v.elts))
-                for tn, vv in pairs:
-                    c = _chain(vv)
-                    if not (isinstance(vv, ast.Attribute) and c and c[0] in params and len(c) >= 2):
+            for blk in blocks:
+                for i, st in enumerate(blk):
+                    if not isinstance(st, ast.Assign) or len(st.targets) != 1:
                         continue
-                    if stores.get(tn.id, 0) != 1 or tn.id in params or stores.get(c[0], 0):
-                        continue
-                    if any(w[:len(c)] == c or c[:len(w)] == w for w in written):
-                        continue
-                    # the name is not read before this statement, and nested functions do not rebind it
-                    before = [n for s0 in fn.body[:i] for n in ast.walk(s0) if isinstance(n, ast.Name) and n.id == tn.id]
-                    nested_store = [n for d in ast.walk(fn) if d is not fn and isinstance(d, (ast.FunctionDef, ast.Lambda)) for n in ast.walk(d)
-                                    if (isinstance(n, ast.Name) and n.id == tn.id and isinstance(n.ctx, ast.Store)) or (isinstance(n, ast.arg) and n.arg == tn.id)]
-                    if before or nested_store:
-                        continue
-                    cands[tn.id] = (st, vv)
+                    t, v = st.targets[0], st.value
+                    pairs = []
+                    if isinstance(t, ast.Name):
+                        pairs = [(t, v)]
+                    elif isinstance(t, ast.Tuple) and isinstance(v, ast.Tuple) and len(t.elts) == len(v.elts) and all(isinstance(x, ast.Name) for x in t.elts):
+                        pairs = list(zip(t.elts, v.elts))
+                    for tn, vv in pairs:
+                        c = _chain(vv)
+                        if not (isinstance(vv, ast.Attribute) and c and c[0] in params and len(c) >= 2):
+                            continue
+                        if stores.get(tn.id, 0) != 1 or tn.id in params or stores.get(c[0], 0):
+                            continue
+                        if any(w[:len(c)] == c or c[:len(w)] == w for w in written):
+                            continue
+                        if any(a_ in rebound for a_ in c[1:]):
+                            continue
+                        # every read of the name lies in the statements that follow the binding in its own block (so the binding has run, exactly once... per
+                        # execution of that block: inside a loop the alias is re-bound to the same chain, which is still the same expression)
+                        later = {id(n) for s2 in blk[i + 1:] for n in ast.walk(s2)}
+                        reads = [n for n in all_names if n.id == tn.id and isinstance(n.ctx, ast.Load)]
+                        nested_store = [n for d in ast.walk(fn) if d is not fn and isinstance(d, (ast.FunctionDef, ast.Lambda)) for n in ast.walk(d)
+                                        if (isinstance(n, ast.Name) and n.id == tn.id and isinstance(n.ctx, ast.Store)) or (isinstance(n, ast.arg) and n.arg == tn.id)]
+                        if nested_store or not all(id(n) in later for n in reads):
+                            continue
+                        cands[tn.id] = (st, vv)
             if not cands:
                 continue
 
@@ -1183,24 +1217,37 @@ def propagate_attribute_aliases(modules):
                     if isinstance(n.ctx, ast.Load) and n.id in cands:
                         return ast.copy_location(copy.deepcopy(cands[n.id][1]), n)
                     return n
-            new_body = []
-            for st in fn.body:
-                hit = [k for k, (s0, _v) in cands.items() if s0 is st]
-                if hit:
-                    t, v = st.targets[0], st.value
-                    if isinstance(t, ast.Name):
+
+            def rebuild(stmts):
+                new_body = []
+                for st in stmts:
+                    hit = [k for k, (s0, _v) in cands.items() if s0 is st]
+                    if hit:
+                        t, v = st.targets[0], st.value
+                        if isinstance(t, ast.Name):
+                            continue
+                        keep = [(a, b) for a, b in zip(t.elts, v.elts) if a.id not in cands]
+                        if not keep:
+                            continue
+                        if len(keep) == 1:
+                            st2 = ast.Assign(targets=[keep[0][0]], value=Sub().visit(keep[0][1]))
+                        else:
+                            st2 = ast.Assign(targets=[ast.Tuple(elts=[a for a, _b in keep], ctx=ast.Store())], value=ast.Tuple(elts=[Sub().visit(b) for _a, b in keep], ctx=ast.Load()))
+                        ast.copy_location(st2, st)
+                        new_body.append(st2)
                         continue
-                    keep = [(a, b) for a, b in zip(t.elts, v.elts) if a.id not in cands]
-                    if not keep:
-                        continue
-                    if len(keep) == 1:
-                        st2 = ast.Assign(targets=[keep[0][0]], value=Sub().visit(keep[0][1]))
-                    else:
-                        st2 = ast.Assign(targets=[ast.Tuple(elts=[a for a, _b in keep], ctx=ast.Store())], value=ast.Tuple(elts=[Sub().visit(b) for _a, b in keep], ctx=ast.Load()))
-                    ast.copy_location(st2, st)
-                    new_body.append(st2)
-                    continue
-                new_body.append(Sub().visit(st))
+                    if not isinstance(st, (ast.FunctionDef, ast.AsyncFunctionDef, ast.ClassDef)):
+                        for fld in ('body', 'orelse', 'finalbody'):
+                            sub = getattr(st, fld, None)
+                            if isinstance(sub, list) and sub and all(isinstance(x, ast.stmt) for x in sub):
+                                setattr(st, fld, rebuild(sub) or [ast.Pass()])
+                        if isinstance(st, ast.Try):
+                            for hd in st.handlers:
+                                hd.body = rebuild(hd.body) or [ast.Pass()]
+                    new_body.append(st)
+                return new_body
+            new_body = rebuild(fn.body)
+            new_body = [Sub().visit(st) for st in new_body]
             fn.body = new_body or [ast.Pass()]
             ast.fix_missing_locations(fn)
             log.append(('%s.%s' % (m.name, fn.name), [], 'local aliases written out: %s' % ', '.join('%s = %s' % (k, ast.unparse(v)) for k, (_s, v) in sorted(cands.items()))))
